@@ -66,6 +66,17 @@ from nemoguardrails.utils import console, new_uuid
 log = logging.getLogger(__name__)
 
 
+def _is_plain_value(value: Any) -> bool:
+    """True for the literal types a flow variable may hold (str, numbers, bool, None and containers of those)."""
+    if value is None or isinstance(value, (str, int, float, bool)):
+        return True
+    if isinstance(value, (list, tuple, set)):
+        return all(_is_plain_value(v) for v in value)
+    if isinstance(value, dict):
+        return all(_is_plain_value(k) and _is_plain_value(v) for k, v in value.items())
+    return False
+
+
 def _remove_leading_empty_lines(s: str) -> str:
     """Remove the leading empty lines if they exist.
 
@@ -786,9 +797,14 @@ class LLMGenerationActionsV2dotx(LLMGenerationActions):
         log.info("Generated value for $%s: %s", var_name, value)
 
         try:
-            return literal_eval(value)
+            result = literal_eval(value)
         except Exception:
             raise Exception(f"Invalid LLM response: `{value}`")
+
+        if not _is_plain_value(result):
+            # e.g. `...`, bytes or complex literals: nothing the state can hold
+            raise Exception(f"Invalid LLM response: `{value}`")
+        return result
 
     @action(name="GenerateFlowAction", is_system_action=True, execute_async=True)
     async def generate_flow(
